@@ -65,6 +65,10 @@ pub struct Model {
     pub removed_monitors: Vec<String>,
     pub cfg: MCfg,
     pub swept: u128,
+    /// part of `swept` that came from a state the admin's ResumeContract created (the listed known finding)
+    pub swept_known: u128,
+    /// the current L = 0 < N state was installed by a ResumeContract
+    pub ownerless_from_resume: bool,
     pub adj_n: i128,
     pub adj_l: i128,
     /// ground-truth packet ids whose records a recovery removed
@@ -310,6 +314,8 @@ impl Engine {
             removed_monitors: vec![],
             cfg,
             swept: 0,
+            swept_known: 0,
+            ownerless_from_resume: false,
             adj_n: 0,
             adj_l: 0,
             recovered: BTreeSet::new(),
@@ -613,6 +619,14 @@ impl Engine {
         if lhs != rhs {
             self.vo("C01", "total_backed", format!("State.total_native_token={} + set_aside={} + swept={} != forwarded (delivered+in flight {} + refunded awaiting re-send {}) + resume_adj={}", post.n, exp_sum, self.m.swept, not_refunded, refundable_ibc.max(0), self.m.adj_n));
         }
+        // the same with "refunded and awaiting re-send" read from the contract's own records: stake whose
+        // refund the contract no longer records as refundable can never reach the staker again
+        if self.m.lost_cb.is_empty() && !self.m.reckless {
+            let q_ibc: i128 = post.queue.iter().filter(|p| p.denom == ibc && (p.status == "ack_failure" || p.status == "timed_out")).map(|p| p.amount as i128).sum();
+            if lhs != not_refunded + q_ibc + self.m.adj_n {
+                self.vo("C01", "refunded_stake_is_recorded", format!("State.total_native_token={} + set_aside={} + swept={} != delivered+in flight {} + transfers recorded as refundable {} + resume_adj={} (truly refunded and not re-sent: {})", post.n, exp_sum, self.m.swept, not_refunded, q_ibc, self.m.adj_n, refundable_ibc));
+            }
+        }
         // honest-operator clause
         if self.sw.honest && !self.m.reckless {
             let staker_side = self.staker_side() as i128;
@@ -643,13 +657,14 @@ impl Engine {
         let refunded_ibc = self.refunded_not_resent(&ibc);
         // (c) cannot be negative: re-sending more than was refunded takes tokens backing other claims
         let owed = owed_a + post.fees as i128 + refunded_ibc.max(0);
-        let unbacked = if self.known_c02_sweep { self.m.swept as i128 } else { 0 };
+        // only the sweep of a state created by ResumeContract is the listed known finding
+        let unbacked = if self.known_c02_sweep { self.m.swept_known as i128 } else { 0 };
         // a reckless forced recovery pays a re-send out of whatever the contract holds: solvency is void from then on
         if self.m.reckless {
             self.stats.probe("conservation_checks_off_after_reckless_recovery");
         } else if bal != owed - unbacked {
             self.vo("C02", "balance_eq_owed", format!("contract holds {} but owes batches {} + fees {} + refundable {} (unbacked swept {})", bal, owed_a, post.fees, refunded_ibc, self.m.swept));
-        } else if self.m.swept > 0 {
+        } else if self.m.swept_known > 0 && self.known_c02_sweep {
             *self.stats.known.entry("C02 ownerless-stake sweep credits total_fees with tokens the contract does not hold").or_insert(0) += 1;
         }
         // the same equation with (c) read from the contract's own records: refunded value that the
